@@ -586,8 +586,20 @@ class HomeKitConnection:
         self._drop_transport()
         if self.closing:
             self.closed = True
+        elif self._connector and not self._connector.done():
+            # The connection was lost while the connector is still finishing
+            # the setup (for example while re-subscribing). It cannot be
+            # restarted now, so check again once it has finished as otherwise
+            # nothing would ever reconnect.
+            self._connector.add_done_callback(self._connector_done_after_loss)
         else:
             self._start_connector()
+
+    def _connector_done_after_loss(self, connector: asyncio.Task[None]) -> None:
+        """Restart the connector if it finished without noticing the connection was lost."""
+        if self.closing or connector.cancelled() or connector.exception():
+            return
+        self._start_connector()
 
     def _get_connect_hosts(self) -> list[str]:
         """Return the hosts to try for the next connection attempt.
